@@ -44,5 +44,5 @@ Check (C07_same_message : forall p v sl tl sfx out v', bytes_ok p -> parse p = O
   exists qls qt lxa lxn lxr qls' L' lxa' lxn' lxr',
     reading p qls qt lxa lxn lxr /\ renamed sl tl sfx qls qls' /\ Forall2 (ren_rec sl tl sfx) (lxa ++ lxn ++ lxr) L' /\
     reading out qls' qt lxa' lxn' lxr' /\ Forall2 ci_rec L' (lxa' ++ lxn' ++ lxr') /\
-    length lxa' = length lxa /\ length lxn' = length lxn /\ length lxr' = length lxr).
+    length lxa' = length lxa /\ length lxn' = length lxn /\ length lxr' = length lxr /\ firstn 12 out = firstn 12 p).
 Print Assumptions C07_same_message.
